@@ -692,7 +692,22 @@ pub fn run(rep: &mut Report) {
     {
         let oe: Vec<(TimeScale, i128)> = eps.iter().copied().step_by(23).take(6).collect();
         let of = ["%Y-%m-%dT%H:%M:%S.%f", "%a, %d %b %Y %H:%M:%S", "%Y-%j %H:%M:%S.%f", "%d %B %Y %H:%M:%S", "%H:%M:%S %d-%m-%Y", "%Y-%m-%dT%H:%M:%S.%f%z"];
-        crate::engine::order_pairs(rep, "c19.order", 9 * 6 + 6 * 6 + 12, |i, out| {
+        let wdays: Vec<i128> = [(2021i64, 1i64, 1i64), (2021, 1, 17), (2021, 2, 16), (2021, 3, 16), (2021, 3, 1), (2024, 2, 29)].iter().map(|(y, m, d)| super::c08::expected_count(days1900(*y, *m, *d), 43_200 * NS_S, TimeScale::UTC)).collect();
+        crate::engine::order_pairs(rep, "c19.order", 9 * 6 + 6 * 6 + 12 + 6 + 4, |i, out| {
+            if i >= 108 {
+                // the same format text written into ONE re-used buffer (same address, same length, other content)
+                thread_local! { static BUF: std::cell::RefCell<String> = std::cell::RefCell::new(String::with_capacity(64)); }
+                let f = ["%Y-%m-%d %H:%M:%S.%f", "%d/%m/%Y %H:%M:%S.%f", "%Y-%m-%dT%H:%M:%S", "%d %m %YT%H:%M:%S"][(i - 108) as usize];
+                return BUF.with(|b| {
+                    let mut b = b.borrow_mut();
+                    b.clear();
+                    b.push_str(f);
+                    j_parse_back(&b, wdays[(i % 6) as usize], out)
+                });
+            }
+            if i >= 102 {
+                return j_render(&['A', 'w', 'Y', 'm', 'd'], &[2, 2, 1, 1], wdays[(i - 102) as usize], TimeScale::UTC, &leap, out);
+            }
             if i < 54 {
                 let (ts, c) = oe[(i % 6) as usize];
                 j_consts(i / 6, c, ts, out)
